@@ -121,7 +121,7 @@ class FluentWorklist(BaseWorklist):
             # transfer from this source column until all wells are done
             npartitions = max(map(len, vol_lists))
             # Count only the extra steps created by LVH
-            lvh_extra += sum([len(vs) - 1 for vs in vol_lists])
+            lvh_extra += sum([max(0, len(vs) - 1) for vs in vol_lists])
             for p in range(npartitions):
                 naccessed = 0
                 # iterate the rows
